@@ -120,6 +120,16 @@ AddProject(st, k, d, defraw, yield) ==
     ELSE LET par == yield /\ k.s # "" /\ AsRoot(k) \in DOMAIN st.o /\ st.o[AsRoot(k)].d.kind = d.kind
          IN Res([st EXCEPT !.o = Put(st.o, k, OptRec(d, Canon(d, defraw), par, par)), !.proj = st.proj \cup {k}], TRUE)
 
+\* update_project_options for one option: the option file was edited and is read again.  A new option is added; an
+\* option whose choices / range changed takes the new declaration and keeps its value when that is still valid,
+\* otherwise falls back to the new default (Build-options.md; statement of C08); anything else keeps the old object
+UpdateProject(st, k, d, defraw) ==
+    IF k \notin DOMAIN st.o THEN AddProject(st, k, d, defraw, FALSE)
+    ELSE IF ~Valid(d, defraw) THEN Res(st, FALSE)
+    ELSE IF st.o[k].d = d THEN Res(st, TRUE)
+    ELSE Res([st EXCEPT !.o[k].d = d, !.o[k].def = Canon(d, defraw),
+                        !.o[k].v = IF ValOK(d, st.o[k].v) THEN st.o[k].v ELSE Canon(d, defraw)], TRUE)
+
 \* ---- applying a list of assignments -----------------------------------------------
 \* items: sequence of [k |-> key, r |-> raw], applied in order (later ones override earlier ones)
 
